@@ -136,8 +136,8 @@ def main(tier):
     ck.built = built
     rnd = core.rng_for("c05main", ck.seed, tier)
     quick = tier == "quick"
-    jobs = [(built, "gen", ck.seed, i, None) for i in range(400 if quick else 10000)]
-    jobs += [(built, "genmut", ck.seed, i, None) for i in range(200 if quick else 5000)]
+    jobs = [(built, "gen", ck.seed, i, None) for i in range(3000 if quick else 30000)]
+    jobs += [(built, "genmut", ck.seed, i, None) for i in range(1500 if quick else 15000)]
     shards, reg = trees.corpus_shards(rnd, 16, registry_n=0 if quick else 1500)
     for i, sh in enumerate(shards):
         jobs.append((built, "corpus", ck.seed, i, sh))
